@@ -400,6 +400,16 @@ impl<'a> Ex<'a> {
     }
 
     /// forget bytes whose address is no longer mapped (after a shrink) or was re-initialised (new area, growth)
+    /// a freshly created area: its initial contents are what a read must return from now on (C08: "or the
+    /// initial contents"), whatever stood at those addresses before - in particular if the new area was
+    /// wrongly laid over an existing one, whose bytes would then shine through
+    fn flat_fresh(&mut self, start: u64, data: &[u8]) {
+        self.flat_forget(start, data.len() as u64);
+        if data.len() <= 0x4000 {
+            self.flat_write(start, data);
+        }
+    }
+
     fn flat_forget(&mut self, start: u64, len: u64) {
         if len == 0 {
             return;
@@ -1064,7 +1074,7 @@ impl<'a> Ex<'a> {
             }
         }
         if r.is_ok() {
-            self.flat_forget(start, len);
+            self.flat_fresh(start, &data);
             self.m.areas.push(MArea { start, len, prot: 3, data });
             // C09: a fresh area starts out readable and writable and nothing else, whatever stood at its
             // address before (an emptied area that had been put under another mask, say)
@@ -1129,7 +1139,7 @@ impl<'a> Ex<'a> {
                 if !self.m.free(*start, len, None) {
                     self.ctx.dev("C10", format!("{sig}|returned_range_overlaps"), format!("{name}({len}) returned {start:#x} which intersects an existing area"));
                 }
-                self.flat_forget(*start, len);
+                self.flat_fresh(*start, &data);
                 self.m.areas.push(MArea { start: *start, len, prot: 3, data });
                 self.ctx.probe("anywhere_ok");
                 if self.m.areas.len() > 1 && *start != 0x1000 {
@@ -1160,7 +1170,11 @@ impl<'a> Ex<'a> {
                 if !self.m.free(*start, len, None) {
                     self.ctx.dev("C10", format!("{sig}|returned_range_overlaps"), format!("init_stack({len}) placed the stack at {start:#x} which intersects an existing area"));
                 }
-                self.flat_forget(*start, len);
+                if len <= 0x4000 {
+                    self.flat_fresh(*start, &vec![0u8; len as usize]);
+                } else {
+                    self.flat_forget(*start, len);
+                }
                 self.m.areas.push(MArea { start: *start, len, prot: 3, data: vec![0; len as usize] });
                 self.m.gpr[6] = self.ax.reg_read_64(SupportedRegister::RSP).unwrap_or(0);
                 self.last_init_stack = Some((*start, len));
